@@ -378,6 +378,43 @@ def _s1c(program, res):
                     f"the extend-merge branch is entered under a condition that does not depend on {miss}", merged_ret.stmt)
     else:
         res.ok("C04-S1", "extend-merge guard depends on both steps' terms and needs, the sub-step's suffix/mergeable flag and the dialect switch")
+    # column order of the merged step: the un-merged step is built with terms=<this node's terms> (the emission order of a top-level step);
+    # storing into the sub-step's dict keeps the *sub-step's* positions, so the merged path has to re-establish this node's order
+    terms_name = next((unparse(kw.value) for c in ast.walk(f.node) if isinstance(c, ast.Call) and (dotted_name(c.func) or "").endswith("NearSQLUnaryStep")
+                       for kw in c.keywords if kw.arg == "terms" and isinstance(kw.value, ast.Name)), None)
+    if terms_name is None:
+        raise AnalysisError("extend_to_near_sql: NearSQLUnaryStep(terms=<name>) of the un-merged path not found")
+    branch = [b for (b, l) in g.lexical_guards(merged_ret) if l is True]
+    inner = branch[-1].stmt if branch else f.node
+    reorders = []
+    for st in ast.walk(inner):
+        if isinstance(st, ast.Assign) and len(st.targets) == 1 and unparse(st.targets[0]) == f"{subsql}.terms":
+            try:
+                rts = d.roots_at(g.containing_node(st), st.value)
+            except Exception:
+                rts = set()
+            mentioned = {n_.id for n_ in ast.walk(st.value) if isinstance(n_, ast.Name)}
+            if isinstance(st.value, ast.Name):
+                # the new dict is a local filled in a loop: the loop's iteration order is what orders it
+                for lp in ast.walk(inner):
+                    if isinstance(lp, (ast.For, ast.ListComp, ast.DictComp)) and any(
+                            isinstance(x, (ast.Subscript, ast.Name)) and unparse(x).split("[")[0] == st.value.id and isinstance(getattr(x, "ctx", None), ast.Store)
+                            for x in ast.walk(lp)):
+                        it = lp.iter if isinstance(lp, ast.For) else lp.generators[0].iter
+                        # order is decided by what comes first in the iteration
+                        first = it
+                        while isinstance(first, ast.BinOp) and isinstance(first.op, ast.Add):
+                            first = first.left
+                        mentioned |= {n_.id for n_ in ast.walk(first) if isinstance(n_, ast.Name)}
+            if any(r.split(".")[0] == terms_name for r in rts) or terms_name in mentioned:
+                reorders.append(st)
+    if reorders:
+        res.ok("C04-S1", f"the merged step's terms are rebuilt in the order of this node's `{terms_name}` before it is returned")
+    else:
+        res.fail_at("C04-S1", f, "merged-step-keeps-sub-step-column-order",
+                    f"the merged path stores this node's terms into `{subsql}.terms` key by key and returns it: a column the sub-step re-assigned keeps the sub-step's position, "
+                    f"so a top-level merged extend lists its columns in another order than the un-merged one (descr(d).extend({{'k': 'u * 1'}}).extend({{'c': 'u.min()'}}, "
+                    f"partition_by=['g']): g,k,u,c without merging, g,u,k,c with)", merged_ret.stmt)
     # three contention intersections: ours∩theirs, ours∩their needs, theirs∩our needs
     cont = [n for n in g.stmt_nodes(("stmt",)) if isinstance(n.stmt, ast.Assign) and unparse(n.stmt.targets[0]) == "contention"]
     if cont:
@@ -617,6 +654,107 @@ def _s3(program, res):
         res.fail_at("C04-S3", ist, "layout-drops-terms", "a comma layout of _indent_and_sep_terms does not emit every term exactly once")
 
 
+def _s4_union_operands(program, res):
+    """UNION operands are emitted bare (SQLite refuses parenthesised members of a compound select), so an operand that ends in ORDER BY /
+    LIMIT hands these to the whole compound statement.  In WITH form the operand is a CTE name and keeps them: the emitter has to
+    enclose a suffix-carrying operand in a sub-select (or the generator must never produce one)."""
+    m = program.method("sql_model", "SQLModel", "nearsqlbinary_to_sql_str_list_", inherited=False)
+    res.analysed(m)
+    sub_calls = [c for c in ast.walk(m.node) if isinstance(c, ast.Call) and isinstance(c.func, ast.Attribute) and c.func.attr == "convert_subsql"]
+    if len(sub_calls) < 2:
+        raise AnalysisError("nearsqlbinary_to_sql_str_list_: the two convert_subsql calls were not found")
+    # is the operand ever emitted without enclosure?  (annotation None on the union path)
+    bare_possible = any(any(kw.arg == "quoted_query_name_annotation" and isinstance(kw.value, ast.IfExp) and
+                            (isinstance(kw.value.orelse, ast.Constant) and kw.value.orelse.value is None or
+                             isinstance(kw.value.body, ast.Constant) and kw.value.body.value is None) for kw in c.keywords) for c in sub_calls)
+    if not bare_possible:
+        res.ok("C04-S4", "every operand of a binary step is emitted as a named sub-select")
+        return
+    # looks at the operands' own suffix (directly or in a module-level / method helper it calls)
+    def reads_operand_suffix(fnode, depth=0):
+        for a in ast.walk(fnode):
+            if isinstance(a, ast.Attribute) and a.attr == "suffix" and "sub_sql" in unparse(a.value) or \
+                    isinstance(a, ast.Attribute) and a.attr == "suffix" and depth > 0:
+                return True
+            if isinstance(a, ast.Call) and isinstance(a.func, ast.Name) and a.func.id == "getattr" and len(a.args) >= 2 \
+                    and isinstance(a.args[1], ast.Constant) and a.args[1].value == "suffix" and ("sub_sql" in unparse(a.args[0]) or depth > 0):
+                return True
+        if depth < 1:
+            for c in ast.walk(fnode):
+                if isinstance(c, ast.Call) and any("sub_sql" in unparse(x) for x in list(c.args) + [k.value for k in c.keywords]):
+                    tgt = None
+                    if isinstance(c.func, ast.Attribute) and unparse(c.func.value) == "self":
+                        tgt = program.method("sql_model", "SQLModel", c.func.attr)
+                    elif isinstance(c.func, ast.Name):
+                        tgt = m.module.functions.get(c.func.id)
+                    if tgt is not None and reads_operand_suffix(tgt.node, depth + 1):
+                        return True
+        return False
+
+    # ... and the operand texts (the results of convert_subsql) are rebuilt from that reading
+    operand_vars = [st.targets[0].id for st in ast.walk(m.node) if isinstance(st, ast.Assign) and len(st.targets) == 1 and isinstance(st.targets[0], ast.Name)
+                    and any(c is st.value or c in ast.walk(st.value) for c in sub_calls)]
+    nested = {f.name: f for f in ast.walk(m.node) if isinstance(f, ast.FunctionDef) and f is not m.node}
+
+    def _suffix_dependent(v) -> bool:
+        if reads_operand_suffix(v, depth=0) and not isinstance(v, ast.FunctionDef):
+            return True
+        for c in ast.walk(v):
+            if isinstance(c, ast.Call) and isinstance(c.func, ast.Name) and c.func.id in nested and reads_operand_suffix(nested[c.func.id], depth=1):
+                return True
+        return False
+
+    rebuilt = [ov for ov in operand_vars
+               if any(isinstance(st, ast.Assign) and len(st.targets) == 1 and unparse(st.targets[0]) == ov and not any(c in ast.walk(st.value) for c in sub_calls)
+                      and _suffix_dependent(st.value) for st in ast.walk(m.node))]
+    # other sound shapes of the same repair: the enclosure is requested from convert_subsql by an argument that depends on the operand's
+    # suffix, or the generator of the union step (concat_rows_to_near_sql) deals with the operands' suffix itself
+    via_argument = all(any(reads_operand_suffix(kw.value) for kw in c.keywords) for c in sub_calls)
+    gen = program.method("sql_model", "SQLModel", "concat_rows_to_near_sql", inherited=False)
+    via_generator = any(isinstance(a, ast.Attribute) and a.attr == "suffix" for a in ast.walk(gen.node)) or \
+        any(isinstance(a, ast.Constant) and a.value == "suffix" for a in ast.walk(gen.node))
+    if (len(operand_vars) >= 2 and len(rebuilt) == len(operand_vars)) or via_argument or via_generator:
+        res.ok("C04-S4", "a UNION operand that carries its own ORDER BY / LIMIT is enclosed before it is joined")
+    else:
+        res.fail_at("C04-S4", m, "union-operand-suffix-unenclosed",
+                    "the operands of UNION ALL are emitted bare, whatever they end in: t.concat_rows(t.order_rows(['k'], limit=1)) with use_with=False "
+                    "emits `SELECT k FROM d UNION ALL SELECT k FROM d ORDER BY k LIMIT 1`, where ORDER BY / LIMIT bind to the whole union (1 row instead of 4; "
+                    "a syntax error when the left operand is the limited one), while use_with=True names the operand as a CTE and returns 4 rows", sub_calls[0])
+
+
+def _s5_cte_names(program, res):
+    """WITH form names every step; steps with equal names are assumed to be the same step (near_sql.py: "assume any name collisions are
+    the same table/common_table_expression").  That holds only if every step name is unique per conversion: taken from the id source."""
+    n = 0
+    for f in program.all_functions():
+        if f.module.name.split(".")[-1] == "near_sql":
+            continue  # the re-wrapping of existing steps (names copied from the step being wrapped)
+        calls = [c for c in ast.walk(f.node) if isinstance(c, ast.Call) and (dotted_name(c.func) or "").split(".")[-1].startswith("NearSQL")
+                 and (dotted_name(c.func) or "").split(".")[-1] not in ("NearSQLTable", "NearSQLCommonTableExpression", "NearSQLContainer")
+                 and any(kw.arg == "query_name" for kw in c.keywords)]
+        if not calls:
+            continue
+        g = cfgmod.build(f.node)
+        d = depsmod.Deps(g, f.params())
+        res.analysed(f)
+        for c in calls:
+            n += 1
+            e = [kw.value for kw in c.keywords if kw.arg == "query_name"][0]
+            try:
+                roots = d.roots_at(g.containing_node(c), e)
+            except Exception:
+                roots = {n_.id for n_ in ast.walk(e) if isinstance(n_, ast.Name)}
+            if any(r.split(".")[0].split("[")[0] == "temp_id_source" for r in roots):
+                res.ok("C04-S5", f"{f.qualname}: the step name is numbered from the conversion's id source")
+            else:
+                res.fail_at("C04-S5", f, f"step-name-not-from-id-source:{unparse(e)}",
+                            f"{f.qualname} names its step `{unparse(e)}`, which is not numbered from temp_id_source: two different steps can carry the same name, and "
+                            f"WITH form keeps only the first of equally named steps — SQLNode(sql=A, view_name='q').concat_rows(SQLNode(sql=B, view_name='q')) "
+                            f"runs A twice under use_with=True and A, B under use_with=False", c)
+    if n < 8:
+        raise AnalysisError(f"C04-S5: only {n} NearSQL step constructions with query_name= found outside near_sql.py")
+
+
 def run(program, res, tier):
     res.rule("C04-S1", "CTE cache key coherent with step content; merge guard and declared dependencies complete")
     res.rule("C04-S2", "WITH re-wrap forwards every emitted field")
@@ -627,3 +765,7 @@ def run(program, res, tier):
     _s1c(program, res)
     _s2(program, res)
     _s3(program, res)
+    res.rule("C04-S4", "a UNION operand's ORDER BY / LIMIT stays inside the operand in nested form as it does in WITH form")
+    _s4_union_operands(program, res)
+    res.rule("C04-S5", "every step named in WITH form takes its name from the conversion's id source (equal names mean equal steps)")
+    _s5_cte_names(program, res)
